@@ -488,3 +488,774 @@ def _trigger(ctx):
     if ctx[0] == "rx":
         return "rx:%s" % ctx[1]
     return ctx[0]
+
+
+# ====================================================================== C06
+
+def mon_c06(w, F, vd):
+    if not (w.cfg["profile"] & 1):
+        return
+    store = {0: {}, 1: {}}            # addr -> id -> dict(topic,payload,retain,dups)
+    handlers = {}
+    phase = {}
+    nontriv = False
+    in_ctx = set()                     # indices of events accounted for by an inbound PUBLISH/PUBREL
+    seen_ids = {0: set(), 1: set()}
+    for e in w.log:
+        if e.k == "handlers":
+            handlers[e.c] = e.d["mask"]
+        elif e.k == "phase":
+            phase[e.c] = e.d["new"]
+            if e.d["new"] == "connected" and w.conns[e.c].clean:
+                # the broker has discarded its session: what the client still stores is left open by
+                # the statement (the generator sends no PUBREL for it); a PUBLISH reusing the id is new
+                for st in store[w.conns[e.c].a].values():
+                    st["stale"] = True
+        elif e.k == "lost":
+            phase[e.c] = "lost"
+            a = w.conns[e.c].a
+            if store[a]:
+                nontriv = True         # a reconnect inside an exchange
+        elif e.k == "rx" and e.d["desc"][0] in ("PUBLISH", "PUBREL") and phase.get(e.c) == "connected":
+            d = e.d["desc"]
+            a = w.conns[e.c].a
+            evs = _ctx_events(w, e)
+            for x in evs:
+                in_ctx.add(x.i)
+            cbs = [x for x in evs if x.k == "cb" and x.d["name"] == "onPublish"]
+            wr = [fr for x in evs if x.k == "write" for fr in x.d["frames"]]
+            wr_k = [(fr[0], fr[1].get("id") if isinstance(fr[1], dict) else None) for fr in wr]
+            has_h = bool(handlers.get(e.c, 0) & 2)
+            if d[0] == "PUBLISH":
+                _, qos, pid, dup, retain, topic, payload = d
+                exp_cb = None
+                if qos == 0:
+                    exp_w = []
+                    exp_cb = (topic, payload, 0, dup, retain, None)
+                elif qos == 1:
+                    exp_w = [("PUBACK", pid)]
+                    exp_cb = (topic, payload, 1, dup, retain, pid)
+                else:
+                    exp_w = [("PUBREC", pid)]
+                    if pid in store[a] and not store[a][pid].get("stale"):
+                        nontriv = True                 # repeated PUBLISH before PUBREL
+                        store[a][pid]["dups"].add(bool(dup))
+                    else:
+                        if store[a]:
+                            nontriv = True             # interleaved exchanges
+                        store[a][pid] = dict(topic=topic, payload=payload, retain=retain, dups={bool(dup)})
+                if wr_k != exp_w:
+                    vd.bad("C06.answer", "inbound PUBLISH qos %d id %s answered with %s, expected %s" % (qos, pid, wr_k, exp_w))
+                if has_h:
+                    if exp_cb is None and cbs:
+                        vd.bad("C06.early_delivery", "QoS 2 PUBLISH id %s delivered before its PUBREL" % pid)
+                    elif exp_cb is not None:
+                        if len(cbs) != 1:
+                            vd.bad("C06.delivery_count", "inbound PUBLISH qos %d delivered %d times" % (qos, len(cbs)))
+                        else:
+                            _cmp_delivery(vd, cbs[0], exp_cb, {bool(dup)})
+            else:
+                _, pid, sel = d
+                if wr_k != [("PUBCOMP", pid)]:
+                    vd.bad("C06.answer", "PUBREL id %s (selector %s) answered with %s, expected one PUBCOMP" % (pid, sel, wr_k))
+                st = store[a].pop(pid, None)
+                if st is not None and st.get("stale"):
+                    pass                               # left open (see above)
+                elif st is None:
+                    nontriv = True                     # repeated / unknown PUBREL
+                    if cbs:
+                        vd.bad("C06.delivered_again", "PUBREL id %s with nothing stored delivered a message" % pid)
+                elif has_h:
+                    if len(cbs) != 1:
+                        vd.bad("C06.delivery_count", "QoS 2 exchange id %s delivered %d times at PUBREL" % (pid, len(cbs)))
+                    else:
+                        _cmp_delivery(vd, cbs[0], (st["topic"], st["payload"], 2, None, st["retain"], pid), st["dups"])
+    # nothing unprompted
+    for e in w.log:
+        if e.i in in_ctx:
+            continue
+        if e.k == "cb" and e.d["name"] == "onPublish":
+            vd.bad("C06.unprompted_delivery", "onPublish called in context %r" % (e.ctx[:2] if e.ctx else None,))
+        elif e.k == "write":
+            for fr in e.d["frames"]:
+                if fr[0] in ("PUBACK", "PUBREC", "PUBCOMP"):
+                    vd.bad("C06.unprompted_ack", "%s id %s written in context %r" % (fr[0], fr[1].get("id"), e.ctx[:2] if e.ctx else None))
+    vd.nontrivial = nontriv
+
+
+def _cmp_delivery(vd, cb, exp, dups):
+    d = cb.d
+    topic, payload, qos, dup, retain, pid = exp
+    got_payload = d["payload"]
+    try:
+        got_payload = bytes(got_payload)
+    except Exception:  # noqa: BLE001
+        pass
+    if d["topic"] != topic or not isinstance(d["topic"], str):
+        vd.bad("C06.delivery_topic", "delivered topic %r, sent %r" % (d["topic"][:40], topic[:40]))
+    if got_payload != payload:
+        vd.bad("C06.delivery_payload", "delivered payload of %d bytes, sent %d bytes" % (len(got_payload), len(payload)))
+    if d["qos"] != qos:
+        vd.bad("C06.delivery_qos", "delivered qos %r, sent %r" % (d["qos"], qos))
+    if d["retain"] != retain:
+        vd.bad("C06.delivery_retain", "delivered retain %r, sent %r" % (d["retain"], retain))
+    if d["msgid"] != pid:
+        vd.bad("C06.delivery_id", "delivered id %r, sent %r" % (d["msgid"], pid))
+    if d["dup"] not in dups:
+        vd.bad("C06.delivery_dup", "delivered dup %r, sent %r" % (d["dup"], sorted(dups)))
+
+
+# ====================================================================== C07
+
+def mon_c07(w, F, vd):
+    if not (w.cfg["profile"] & 1):
+        return
+    nontriv = False
+    window = {}
+    phase = {}
+    closed = set()
+    pending = {"subscribe": {0: [], 1: []}, "unsubscribe": {0: [], 1: []}}
+    at_loss = {}      # rid -> conn idx lost while pending and not failed there
+    for e in w.log:
+        k = e.k
+        if k == "build":
+            window[e.c] = 1
+        elif k == "phase":
+            phase[e.c] = e.d["new"]
+        elif k in ("close", "abort"):
+            closed.add(e.c)
+        elif k == "api":
+            r = w.reqs[e.d["rid"]]
+            if r.kind == "setWindowSize" and r.ret == "none":
+                window[e.c] = r.args[0]
+                a = w.conns[e.c].a
+                if pending["subscribe"][a] or pending["unsubscribe"][a]:
+                    nontriv = True
+            elif r.kind in ("subscribe", "unsubscribe"):
+                a = w.conns[e.c].a
+                if phase.get(e.c) != "connected" or e.c in closed or r.state_before != "connected":
+                    continue
+                if r.ret != "deferred":
+                    vd.bad("C07.no_deferred", "%s() returned %s" % (r.kind, r.ret))
+                    continue
+                ri = F.info[r.rid]
+                evs = _ctx_events(w, e)
+                wrs = [fr for x in evs if x.k == "write" for fr in x.d["frames"]]
+                npend = len(pending[r.kind][a])
+                if npend < window.get(e.c, 1):
+                    if not ri.accepted:
+                        vd.bad("C07.refused_below_window", "%s #%d refused (%s) with %d pending and window %d" % (
+                            r.kind, r.rid, type(r.fires[0][4]).__name__ if r.fires else "?", npend, window.get(e.c, 1)))
+                        continue
+                    pending[r.kind][a].append(r.rid)
+                    K = r.kind.upper()
+                    if len(wrs) != 1 or wrs[0][0] != K:
+                        vd.bad("C07.not_one_packet", "%s #%d wrote %s" % (r.kind, r.rid, [x[0] for x in wrs]))
+                    else:
+                        f = wrs[0][1]
+                        want = [tuple(t) for t in r.args["topics"]] if r.kind == "subscribe" else list(r.args["topics"])
+                        got = [tuple(t) for t in f["topics"]] if r.kind == "subscribe" else list(f["topics"])
+                        if got != want:
+                            vd.bad("C07.topics", "%s #%d asked for %r, wrote %r" % (r.kind, r.rid, want, got))
+                        if f["id"] != r.msgid:
+                            vd.bad("C07.id_mismatch", "%s #%d: msgId %r, id on the wire %r" % (r.kind, r.rid, r.msgid, f["id"]))
+                else:
+                    ok = (not ri.accepted) and r.fires and type(r.fires[0][4]).__name__ == "MQTTWindowError"
+                    if not ok:
+                        vd.bad("C07.window_not_enforced", "%s #%d with %d pending and window %d: %s" % (
+                            r.kind, r.rid, npend, window.get(e.c, 1),
+                            "accepted" if ri.accepted else type(r.fires[0][4]).__name__))
+                        if ri.accepted:
+                            pending[r.kind][a].append(r.rid)
+                    if wrs:
+                        vd.bad("C07.window_error_wrote", "%s #%d refused but wrote %s" % (r.kind, r.rid, [x[0] for x in wrs]))
+        elif k == "fire" and e.d["kind"] in ("subscribe", "unsubscribe"):
+            rid = e.d["rid"]
+            r = w.reqs[rid]
+            ri = F.info[rid]
+            a = ri.a
+            if rid in pending[r.kind][a]:
+                pending[r.kind][a].remove(rid)
+            if not ri.accepted:
+                continue
+            if len(r.fires) > 1 and r.fires[0][0] != e.i:
+                vd.bad("C07.fired_twice", "%s #%d fired twice" % (r.kind, rid))
+            if e.d["out"] == "ok":
+                rx = rx_event_of(w, e.i)
+                want = "SUBACK" if r.kind == "subscribe" else "UNSUBACK"
+                d = rx.d["desc"] if rx is not None else None
+                if d is None or d[0] != want or d[1] != r.msgid or w.conns[rx.c].a != a:
+                    vd.bad("C07.success_without_ack", "%s #%d succeeded in context %r" % (r.kind, rid, e.ctx[:3] if e.ctx else None))
+                else:
+                    val = r.fires[0][4]
+                    if r.kind == "subscribe":
+                        exp = [((c, False) if c != 0x80 else (0, True)) for c in d[2]]
+                        try:
+                            got = [tuple(x) for x in val]
+                        except Exception:  # noqa: BLE001
+                            got = val
+                        if got != exp:
+                            vd.bad("C07.granted", "SUBACK codes %r gave %r, expected %r" % (list(d[2]), got, exp))
+                    elif val != r.msgid:
+                        vd.bad("C07.unsuback_value", "unsubscribe #%d callback value %r, msgId %r" % (rid, val, r.msgid))
+        elif k == "rx" and e.d["desc"][0] in ("SUBACK", "UNSUBACK") and unsolicited(e) and phase.get(e.c) == "connected":
+            nontriv = True
+            d = e.d["desc"]
+            evs = _ctx_events(w, e)
+            for x in evs:
+                if x.k == "fire":
+                    vd.bad("C07.foreign_ack_fired", "%s id %s (selector %s) fired request #%s" % (d[0], d[1], d[-1], x.d.get("rid")))
+                elif x.k == "write":
+                    vd.bad("C07.foreign_ack_wrote", "%s id %s (selector %s) caused a write" % (d[0], d[1], d[-1]))
+            if w.ops_done[e.step][0] == "rx":
+                ta, tb = timers_before_after(w, F, e.step)
+                if ta != tb:
+                    vd.bad("C07.foreign_ack_timers", "%s id %s changed the pending timers" % (d[0], d[1]))
+        elif k == "lost":
+            a = w.conns[e.c].a
+            evs = _ctx_events(w, e)
+            failed = set(x.d["rid"] for x in evs if x.k == "fire")
+            for kind in ("subscribe", "unsubscribe"):
+                for rid in list(pending[kind][a]):
+                    nontriv = True
+                    if rid not in failed:
+                        at_loss[rid] = e.c
+    for e in F.already_called():
+        vd.bad("C07.fired_twice", "AlreadyCalledError in %s" % (e.d["where"],))
+    # a request whose connection has gone: failed, or sent again on the next connection -- and never pending for ever
+    for rid, c in at_loss.items():
+        ri = F.info[rid]
+        later = [cn for cn in w.conns if cn.a == ri.a and cn.idx > c and any(
+            x.k == "phase" and x.c == cn.idx and x.d["new"] == "connected" for x in w.log)]
+        if later:
+            nxt = later[0]
+            resent = any(t.c == nxt.idx for t in ri.tx)
+            if not resent and not (ri.fire and ri.fire[3] == "err"):
+                vd.bad("C07.neither_failed_nor_resent", "%s #%d pending at the loss was neither failed nor sent again on the next connection" % (
+                    ri.kind, rid))
+    ops = w.ops_done
+    if len(ops) >= 2 and ops[-1][0] == "idle" and ops[-2][0] == "settle":
+        # the broker answered everything it was sent on the connection that is up at the end
+        for ri in F.reqs_of("subscribe") + F.reqs_of("unsubscribe"):
+            if ri.accepted and ri.fire is None:
+                cur = w.cur.get(ri.a)
+                if cur is not None and cur.phase == "connected" and cur.closed is None and not cur.lost \
+                        and ops[-2][1] == ri.a:
+                    vd.bad("C07.pending_forever", "%s #%d still pending after the broker answered everything" % (ri.kind, ri.rid))
+    vd.nontrivial = nontriv
+
+
+# ====================================================================== C04
+
+def mon_c04(w, F, vd):
+    nontriv = False
+    for e in F.already_called():
+        vd.bad("C04.fired_twice", "AlreadyCalledError in %s" % (e.d["where"],))
+    for r in w.reqs:
+        if r.kind != "connect" or not getattr(r, "valid", True) or not getattr(r, "fresh", False):
+            continue
+        if r.state_before != "idle":
+            continue
+        conn = r.conn
+        api = next(e for e in w.log if e.k == "api" and e.d["rid"] == r.rid)
+        evs = _ctx_events(w, api)
+        wrs = [x for x in evs if x.k == "write"]
+        if r.ret != "deferred":
+            vd.bad("C04.no_deferred", "connect() with valid arguments on an idle protocol returned %s %r" % (r.ret, type(r.exc).__name__))
+            continue
+        if r.fires and r.fires[0][1] == r.step and w.log[r.fires[0][0]].ctx is api.ctx:
+            vd.bad("C04.rejected", "connect() with valid arguments on an idle protocol failed at once with %s" % type(r.fires[0][4]).__name__)
+            continue
+        from . import refcodec as R
+        from .codec import tobytes
+        kw = r.args
+        want = R.ref_encode("CONNECT", dict(
+            client_id=kw["clientId"], keepalive=kw["keepalive"], clean=kw["cleanStart"],
+            will_topic=kw.get("willTopic"), will_message=tobytes(kw["willMessage"]) if kw.get("willMessage") is not None else None,
+            will_qos=kw.get("willQoS", 0), will_retain=kw.get("willRetain", False), username=kw.get("username"),
+            password=tobytes(kw["password"]) if kw.get("password") is not None else None), kw["version"]["level"])
+        data = b"".join(x.d["data"] for x in wrs)
+        if len(wrs) != 1 or data != want:
+            vd.bad("C04.connect_packet", "connect() wrote %d chunk(s) %s..., expected %s..." % (len(wrs), data[:24].hex(), want[:24].hex()))
+        if r.state_after != "connecting":
+            pass   # protocol.state naming is internal; not judged here
+        # what happened next on this connection
+        t0 = r.t
+        limit = t0 + (kw["keepalive"] or 10)
+        first_connack = None
+        lost_ev = None
+        for e in w.log[api.i:]:
+            if e.c != conn.idx:
+                continue
+            if e.k == "rx" and e.d["desc"][0] == "CONNACK" and first_connack is None:
+                first_connack = e
+            elif e.k == "lost":
+                lost_ev = e
+                break
+        if len(r.fires) > 1:
+            vd.bad("C04.fired_twice", "connect Deferred fired %d times" % len(r.fires))
+        end_t = w.now()
+        if first_connack is not None and (not r.fires or r.fires[0][0] > first_connack.i):
+            code, sp = first_connack.d["desc"][1], first_connack.d["desc"][2]
+            inside = [x for x in _ctx_events(w, first_connack) if x.k == "fire" and x.d["rid"] == r.rid]
+            if not inside:
+                vd.bad("C04.connack_no_outcome", "CONNACK code %d did not fire the connect Deferred" % code)
+            else:
+                f = r.fires[0]
+                st_after = F.step_end[first_connack.step].d["states"]
+                st = dict(st_after).get(conn.idx)
+                if code == 0:
+                    if f[3] != "ok" or f[4] != bool(sp) or f[4] is None:
+                        vd.bad("C04.accept_outcome", "CONNACK 0 sp=%d gave %s %r" % (sp, f[3], f[4]))
+                    if st != "connected" and w.ops_done[first_connack.step][0] == "rx":
+                        vd.bad("C04.state_after_accept", "protocol.state is %s after CONNACK 0" % st)
+                else:
+                    nontriv = True
+                    if f[3] != "err" or type(f[4]).__name__ != "MQTTStateError":
+                        vd.bad("C04.refuse_outcome", "CONNACK code %d gave %s %s" % (code, f[3], type(f[4]).__name__))
+                    if st != "idle" and w.ops_done[first_connack.step][0] == "rx":
+                        vd.bad("C04.state_after_refuse", "protocol.state is %s after CONNACK code %d" % (st, code))
+        elif r.fires:
+            f = r.fires[0]
+            ctx = w.log[f[0]].ctx
+            nontriv = True
+            if ctx and ctx[0] == "timer":
+                if type(f[4]).__name__ != "MQTTTimeoutError" or f[3] != "err":
+                    vd.bad("C04.timeout_outcome", "CONNACK timeout gave %s %s" % (f[3], type(f[4]).__name__))
+                if abs(f[2] - limit) > EPS:
+                    vd.bad("C04.timeout_instant", "CONNACK timeout fired at t0+%.3f, expected t0+%s" % (f[2] - t0, kw["keepalive"] or 10))
+                if lost_ev is None or lost_ev.i > f[0]:
+                    ab = [x for x in w.log if x.ctx is ctx and x.k in ("abort", "close")]
+                    if not ab:
+                        vd.bad("C04.timeout_no_close", "CONNACK timeout did not close the transport")
+            elif ctx and ctx[0] == "lose":
+                if f[3] != "err":
+                    vd.bad("C04.loss_outcome", "connection lost during the handshake gave success")
+            else:
+                vd.bad("C04.outcome_context", "connect Deferred fired %s in context %r" % (f[3], ctx[:3] if ctx else None))
+        else:
+            # never fired: only acceptable if the history ended before the deadline
+            if end_t > limit + EPS:
+                vd.bad("C04.never_fired", "connect Deferred still pending %.1fs after connect() (limit %s)" % (end_t - t0, kw["keepalive"] or 10))
+        # duplicate CONNACKs change nothing
+        seen = 0
+        for e in w.log[api.i:]:
+            if e.c == conn.idx and e.k == "rx" and e.d["desc"][0] == "CONNACK":
+                seen += 1
+                if seen >= 2:
+                    nontriv = True
+                    evs2 = _ctx_events(w, e)
+                    if any(x.k in ("fire", "write", "cb", "abort", "close") for x in evs2):
+                        vd.bad("C04.second_connack", "a second CONNACK caused %s" % sorted(set(x.k for x in evs2)))
+                    if w.ops_done[e.step][0] == "rx":
+                        a_, b_ = F.step_end.get(e.step - 1), F.step_end.get(e.step)
+                        if a_ and b_ and (dict(a_.d["states"]).get(conn.idx) != dict(b_.d["states"]).get(conn.idx)):
+                            vd.bad("C04.second_connack", "a second CONNACK changed protocol.state")
+                        ta, tb = timers_before_after(w, F, e.step)
+                        if ta != tb:
+                            vd.bad("C04.second_connack", "a second CONNACK changed the pending timers")
+    # loss notification
+    handlers = {}
+    for e in w.log:
+        if e.k == "handlers":
+            handlers[e.c] = e.d["mask"]
+    notif = {}
+    for e in w.log:
+        if e.k == "cb" and e.d["name"] == "onDisconnection":
+            notif.setdefault(e.c, []).append(e)
+    for e in w.log:
+        if e.k != "lost":
+            continue
+        nontriv = nontriv or e.d["phase"] != "connected"
+        conn = w.conns[e.c]
+        st = dict(F.step_end[e.step].d["states"]).get(e.c) if e.step in F.step_end else None
+        if st is not None and st != "idle":
+            vd.bad("C04.not_idle_after_loss", "protocol.state is %s after the connection was lost" % st)
+        had = bool(handlers_at(w, e) & 1)
+        got = notif.get(e.c, [])
+        if had:
+            if len(got) > 1:
+                vd.bad("C04.notified_twice", "onDisconnection called %d times for one loss" % len(got))
+            elif len(got) == 1:
+                g = got[0]
+                robj = g.d["robj"]
+                val = getattr(robj, "value", robj)
+                if val is not conn.lost_reason:
+                    vd.bad("C04.notification_reason", "onDisconnection got %r, the loss was %r" % (type(val).__name__, type(conn.lost_reason).__name__))
+                late = [x for x in w.log[g.i:] if x.k == "fire" and x.ctx is not None and x.ctx[0] == "lose" and x.c == e.c]
+                if g.i < e.i or late:
+                    vd.bad("C04.notification_order", "onDisconnection ran before the pending requests were dealt with")
+            elif w.now() > e.t + 0.1 + EPS:
+                vd.bad("C04.not_notified", "onDisconnection was set but not called within %.1fs of the loss" % (w.now() - e.t))
+        elif got:
+            vd.bad("C04.notified_unset", "onDisconnection called although no handler was set at the loss")
+    for c, lst in notif.items():
+        if not w.conns[c].lost:
+            vd.bad("C04.notified_without_loss", "onDisconnection called on a connection that was not lost")
+    vd.nontrivial = nontriv
+
+
+def handlers_at(w, ev):
+    m = 0
+    for e in w.log[:ev.i]:
+        if e.k == "handlers" and e.c == ev.c:
+            m = e.d["mask"]
+    return m
+
+
+# ====================================================================== retransmittable packets (C08, C13)
+
+class Packet(object):
+    """one retransmittable packet: PUBLISH/SUBSCRIBE/UNSUBSCRIBE of a request, or the PUBREL of a
+    QoS 2 publish; tx = its transmissions, acked_ei = index of the delivery that acknowledged it"""
+
+    def __init__(self, kind, ri, tx):
+        self.kind, self.ri, self.tx = kind, ri, tx
+        self.acked_ei = None
+        self.dead_ei = None
+
+
+def packets(w, F):
+    out = []
+    for ri in F.info.values():
+        if not ri.accepted or (ri.kind == "publish" and ri.qos == 0):
+            continue
+        K = ri.kind.upper()
+        p = Packet(K, ri, ri.tx)
+        want = {"PUBLISH": ("PUBACK", "PUBREC"), "SUBSCRIBE": ("SUBACK",), "UNSUBSCRIBE": ("UNSUBACK",)}[K]
+        for a in ri.acks:
+            if a[3] in want:
+                p.acked_ei = a[0]
+                break
+        if ri.fire is not None:
+            p.dead_ei = ri.fire[0]
+        out.append(p)
+        if ri.kind == "publish" and ri.qos == 2 and ri.rel:
+            q = Packet("PUBREL", ri, ri.rel)
+            for a in ri.acks:
+                if a[3] == "PUBCOMP":
+                    q.acked_ei = a[0]
+                    break
+            if ri.fire is not None:
+                q.dead_ei = ri.fire[0]
+            out.append(q)
+    return out
+
+
+def conn_timeline(w):
+    """conn idx -> dict(connected_ei, end_ei (close/abort/lost), lost_ei)"""
+    tl = {}
+    for e in w.log:
+        if e.k == "build":
+            tl[e.c] = dict(connected_ei=None, end_ei=None, lost_ei=None, closed_ei=None)
+        elif e.k == "phase" and e.d["new"] == "connected":
+            tl[e.c]["connected_ei"] = e.i
+        elif e.k in ("close", "abort"):
+            if tl[e.c]["closed_ei"] is None:
+                tl[e.c]["closed_ei"] = e.i
+            if tl[e.c]["end_ei"] is None:
+                tl[e.c]["end_ei"] = e.i
+        elif e.k == "lost":
+            tl[e.c]["lost_ei"] = e.i
+            if tl[e.c]["end_ei"] is None:
+                tl[e.c]["end_ei"] = e.i
+    return tl
+
+
+def mon_c08(w, F, vd):
+    nontriv = False
+    ver = w.cfg.get("version", 4)
+    tl = conn_timeline(w)
+    # initial timeout in force per connection over time
+    timeouts = {}
+    for e in w.log:
+        if e.k == "build":
+            timeouts[e.c] = [(e.i, 4)]
+        elif e.k == "api" and e.d["op"] == "setTimeout" and e.d.get("ret") == "none":
+            timeouts[e.c].append((e.i, e.d["args"][0]))
+
+    def min_timeout(c, lo_ei, hi_ei):
+        vals = []
+        cur = 4
+        for (ei, v) in timeouts.get(c, [(0, 4)]):
+            if ei <= lo_ei:
+                cur = v
+            elif ei <= hi_ei:
+                vals.append(v)
+        vals.append(cur)
+        return min(vals)
+
+    for e in F.escapes:
+        if e.d["where"].startswith("timer:"):
+            vd.bad("C08.timer_raised", "%s in %s" % (e.d["exc"], e.d["where"].split(".")[-1]))
+    for p in packets(w, F):
+        if not p.tx:
+            continue
+        first = p.tx[0]
+        if first.f.get("dup"):
+            # PUBREL/SUB/UNSUB under 3.1.1 never decode a dup; PUBLISH first transmission must have DUP=0
+            vd.bad("C08.first_with_dup", "%s of request #%d first transmitted with DUP=1" % (p.kind, p.ri.rid))
+        by_conn = {}
+        for t in p.tx:
+            by_conn.setdefault(t.c, []).append(t)
+        first_conn = first.c
+        for c, txs in by_conn.items():
+            for j, t in enumerate(txs):
+                is_first_overall = (t is first)
+                # content identical except DUP
+                if bytes([t.raw[0] & 0xF7]) + t.raw[1:] != bytes([first.raw[0] & 0xF7]) + first.raw[1:]:
+                    vd.bad("C08.content_changed", "%s of request #%d retransmitted with different content" % (p.kind, p.ri.rid))
+                if not is_first_overall:
+                    want_dup = True if p.kind == "PUBLISH" else (ver == 3)
+                    got_dup = bool(t.raw[0] & 0x08)
+                    if got_dup != want_dup:
+                        vd.bad("C08.dup_flag", "%s of request #%d repeated with DUP=%d under protocol level %d" % (
+                            p.kind, p.ri.rid, got_dup, ver))
+                if j >= 1:
+                    nontriv = nontriv or j >= 2
+                    # (b) repeats on one connection only on timer expiry
+                    if not (t.ctx and t.ctx[0] == "timer"):
+                        vd.bad("C08.repeat_outside_timer", "%s of request #%d repeated in context %r" % (
+                            p.kind, p.ri.rid, t.ctx[:2] if t.ctx else None))
+                    # a repeat after the acknowledgement / settlement is C13's business; here: gaps
+                    gap = t.t - txs[j - 1].t
+                    api_ei = next((x.i for x in w.log if x.k == "api" and x.d["rid"] == p.ri.rid), 0)
+                    base_c = p.ri.conn.idx
+                    if p.kind == "PUBREL":
+                        lim = min_timeout(first.c, first.ei, first.ei)
+                    else:
+                        lim = min_timeout(base_c, api_ei, first.ei)
+                    if gap < lim - EPS:
+                        vd.bad("C08.gap_too_short", "%s of request #%d resent after %.3fs, initial timeout %s" % (
+                            p.kind, p.ri.rid, gap, lim))
+                    if p.kind == "PUBLISH" and j >= 2:
+                        prev = txs[j - 1].t - txs[j - 2].t
+                        if gap < prev - EPS:
+                            vd.bad("C08.gap_shrank", "PUBLISH of request #%d: gaps %.3f then %.3f" % (p.ri.rid, prev, gap))
+                elif c != first_conn:
+                    pass    # resumed on a later connection: C12 judges where and when
+        # (c) every expiry resends: a packet unacknowledged on a live connected connection always has a timer
+    # (c) bounded liveness, two ways
+    #  1. at every step end: pending delayed calls >= unacknowledged packets on connections that are up
+    pk = packets(w, F)
+    for step, se in F.step_end.items():
+        ei = se.i
+        n_unacked = 0
+        for p in pk:
+            if not p.tx:
+                continue
+            last = None
+            for t in p.tx:
+                if t.ei < ei:
+                    last = t
+            if last is None:
+                continue
+            c = last.c
+            t_ = tl.get(c)
+            if t_ is None or t_["connected_ei"] is None or t_["connected_ei"] > ei:
+                continue
+            if t_["end_ei"] is not None and t_["end_ei"] < ei:
+                continue
+            if (p.acked_ei is not None and p.acked_ei < ei) or (p.dead_ei is not None and p.dead_ei < ei):
+                continue
+            if last.where != "wire":
+                continue
+            n_unacked += 1
+        if n_unacked > len(se.d["pending"]):
+            vd.bad("C08.no_retry_timer", "%d unacknowledged packets on live connections but only %d timers pending" % (
+                n_unacked, len(se.d["pending"])))
+            break
+    #  2. the retry tail appended by the generator (op 'retrytail') records its own verdict
+    for e in w.log:
+        if e.k == "retrytail":
+            for (kind, rid, seen, need) in e.d["short"]:
+                vd.bad("C08.stopped_retrying", "%s of request #%d was resent %d times in a tail that let every timer fire (needed %d)" % (
+                    kind, rid, seen, need))
+            if e.d["tracked"]:
+                nontriv = True
+    vd.nontrivial = nontriv
+
+
+# ====================================================================== C13
+
+def mon_c13(w, F, vd):
+    nontriv = False
+    tl = conn_timeline(w)
+    pk = packets(w, F)
+    # (a) nothing is written for a settled request
+    for ri in F.info.values():
+        if not ri.accepted:
+            continue
+        if ri.kind == "publish" and ri.qos == 0:
+            if len(ri.tx) > 1:
+                vd.bad("C13.written_after_settled", "QoS 0 publish #%d written %d times" % (ri.rid, len(ri.tx)))
+            continue
+        if ri.fire is None:
+            continue
+        fe = ri.fire[0]
+        for t in list(ri.tx) + list(ri.rel):
+            if t.ei > fe:
+                vd.bad("C13.written_after_settled", "%s for request #%d written %.3fs after its Deferred fired (%s)" % (
+                    t.kind, ri.rid, t.t - ri.fire[2], _trigger(t.ctx)))
+                break
+        if w.now() - ri.fire[2] >= 1.0:
+            nontriv = True
+    # (d) nothing is written to a transport once its connection was reported lost
+    for e in w.log:
+        if e.k == "write" and e.d["where"] == "after_lost":
+            vd.bad("C13.write_after_lost", "write after the connection was reported lost (%s)" % _trigger(e.ctx))
+    # (b)/(c)/(d) the number of pending timers is bounded by what can justify one
+    notif_pending = []      # (due time) of undelivered notifications
+    handlers = {}
+    connack_timers = {}     # conn idx -> due time, while running
+    keepalive = {}
+    for e in w.log:
+        k = e.k
+        if k == "handlers":
+            handlers[e.c] = e.d["mask"]
+        elif k == "api" and e.d["op"] == "connect":
+            r = w.reqs[e.d["rid"]]
+            if r.ret == "deferred" and getattr(r, "fresh", False) and getattr(r, "valid", True) and not (
+                    r.fires and r.fires[0][1] == r.step and w.log[r.fires[0][0]].ctx is e.ctx):
+                connack_timers[e.c] = e.t + (r.args["keepalive"] or 10)
+                keepalive[e.c] = r.args["keepalive"]
+        elif k == "rx" and e.d["desc"][0] == "CONNACK":
+            connack_timers.pop(e.c, None)
+        elif k == "lost":
+            if handlers.get(e.c, 0) & 1:
+                notif_pending.append(e.t + 0.1)
+            if any(True for _ in se_pending(F, e.step)):
+                nontriv = True
+        elif k == "timers":
+            now = e.t
+            notif_pending = [t for t in notif_pending if t > now + EPS]
+            for c in list(connack_timers):
+                if connack_timers[c] <= now + EPS:
+                    del connack_timers[c]
+            ei = e.i
+            n_out = 0
+            n_ka = 0
+            any_connected_quiet = False
+            for c, t_ in tl.items():
+                if t_["lost_ei"] is not None and t_["lost_ei"] < ei:
+                    continue
+                if t_["connected_ei"] is not None and t_["connected_ei"] < ei and keepalive.get(c, 0):
+                    n_ka += 2
+            for p in pk:
+                if not p.tx:
+                    continue
+                last = None
+                for t in p.tx:
+                    if t.ei < ei:
+                        last = t
+                if last is None:
+                    continue
+                t_ = tl.get(last.c)
+                if t_ is None or (t_["lost_ei"] is not None and t_["lost_ei"] < ei):
+                    continue
+                if (p.acked_ei is not None and p.acked_ei < ei) or (p.dead_ei is not None and p.dead_ei < ei):
+                    continue
+                n_out += 1
+            bound = n_out + len(notif_pending) + len(connack_timers) + n_ka
+            if len(e.d["pending"]) > bound:
+                vd.bad("C13.stray_timer", "%d timers pending; justified: %d unacknowledged packets + %d notifications + %d CONNACK timers + %d keepalive" % (
+                    len(e.d["pending"]), n_out, len(notif_pending), len(connack_timers), n_ka))
+                break
+    # early resend by a second timer: two transmissions of one packet closer than C08 allows are
+    # reported by C08.gap_too_short; here: a retransmission in a timer while another timer for the same
+    # packet is still pending shows up as stray_timer above.
+    vd.nontrivial = nontriv
+
+
+def se_pending(F, step):
+    se = F.step_end.get(step - 1)
+    return se.d["pending"] if se else []
+
+
+# ====================================================================== C15
+
+def mon_c15(w, F, vd):
+    nontriv = False
+    for e in F.escapes:
+        w_ = e.d["where"]
+        if "ping" in w_.lower() or "LoopingCall" in w_ or (e.ctx and e.ctx[0] == "rx" and e.ctx[1] == "PINGRESP") \
+                or w_.startswith("log:"):
+            vd.bad("C15.raised", "%s (%s) in %s" % (e.d["exc"], e.d["msg"][:60], w_[:40]))
+    for conn in w.conns:
+        if conn.keepalive is None:
+            continue
+        k = conn.keepalive
+        pings = []       # (ei, t)
+        resps = []       # (ei, t)
+        t_up = None
+        t_end = None
+        end_ei = None
+        aborts = []
+        for e in w.log:
+            if e.c != conn.idx:
+                continue
+            if e.k == "phase" and e.d["new"] == "connected":
+                t_up = e.t
+            elif e.k == "write" and any(fr[0] == "PINGREQ" for fr in e.d["frames"]):
+                pings.append((e.i, e.t, e.d["where"]))
+            elif e.k == "rx" and e.d["desc"][0] == "PINGRESP":
+                resps.append((e.i, e.t))
+            elif e.k in ("abort", "close"):
+                aborts.append(e)
+                if t_end is None:
+                    t_end, end_ei = e.t, e.i
+            elif e.k == "lost":
+                if t_end is None:
+                    t_end, end_ei = e.t, e.i
+                for (pi, pt, wh) in pings:
+                    if pi > e.i:
+                        vd.bad("C15.ping_after_loss", "PINGREQ written after the connection was lost")
+                for a in aborts:
+                    if a.i > e.i:
+                        vd.bad("C15.abort_after_loss", "keepalive closed a transport whose connection was already lost")
+        if k == 0:
+            if pings:
+                vd.bad("C15.ping_with_keepalive_0", "PINGREQ written although keepalive is 0")
+            continue
+        if t_up is None:
+            if pings:
+                vd.bad("C15.ping_before_connack", "PINGREQ written before CONNACK")
+            continue
+        horizon = t_end if t_end is not None else w.now()
+        # PINGREQ at least every k seconds from CONNACK to the end of the connection
+        prev = t_up
+        for (pi, pt, wh) in pings:
+            if end_ei is not None and pi > end_ei:
+                break
+            if pt - prev > k + EPS:
+                vd.bad("C15.ping_gap", "keepalive %d: %.3fs without a PINGREQ" % (k, pt - prev))
+                break
+            prev = pt
+        else:
+            if horizon - prev > k + EPS:
+                vd.bad("C15.ping_gap", "keepalive %d: no PINGREQ for %.3fs while the connection was up" % (k, horizon - prev))
+        # unanswered PINGREQ => abort no later than t+k ; all answered in time => keepalive never closes
+        all_in_time = True
+        for (pi, pt, wh) in pings:
+            if end_ei is not None and pi > end_ei:
+                break
+            inside = [r for r in resps if r[0] > pi and r[1] < pt + k - EPS]
+            edge = [r for r in resps if r[0] > pi and abs(r[1] - (pt + k)) <= EPS]
+            if not inside:
+                all_in_time = False
+                if not edge and horizon > pt + k + EPS:
+                    vd.bad("C15.no_abort", "PINGREQ at %.3f unanswered for keepalive %d but the connection was not aborted by %.3f" % (pt, k, pt + k))
+                    break
+                if not edge and t_end is not None and t_end > pt + k + EPS:
+                    vd.bad("C15.late_abort", "PINGREQ at %.3f unanswered, connection ended only at %.3f" % (pt, t_end))
+                    break
+        if all_in_time and pings:
+            for a in aborts[:1]:
+                if a.i == end_ei and a.ctx and a.ctx[0] == "timer":
+                    vd.bad("C15.closed_though_answered", "every PINGREQ was answered in time but a timer closed the connection at %.3f" % a.t)
+        n_periods = len([p for p in pings if end_ei is None or p[0] < end_ei])
+        if n_periods >= 3 or (resps and not all_in_time) or len(resps) > len(pings):
+            nontriv = True
+    if len([c for c in w.conns if c.keepalive]) >= 2:
+        nontriv = True
+    vd.nontrivial = nontriv
